@@ -34,7 +34,7 @@ func laneCase(raw json.RawMessage) ([]vf.Failure, error) {
 	return check(&b), nil
 }
 
-var lanes = map[string]vf.LaneFunc{"entity": laneCase}
+var lanes = map[string]vf.LaneFunc{"entity": laneCase, "casing": laneCasing}
 
 func TestReplay(t *testing.T) {
 	if !vf.RunReplayMode(t, prop, lanes) {
@@ -165,7 +165,39 @@ func (fl *failer) add(key, format string, a ...any) {
 }
 
 func checkEntity(fl *failer, ix *index, pkg string, e *j5sgen.Entity, peers []string, odd bool) {
+	// C names the schemas, S the query service and its methods. For the generator's
+	// own vocabulary both are the entity name; for names in any other casing (the
+	// casing lane: one entity per package) they are read off the components that
+	// carry the entity annotations, and must still spell the entity name.
 	C := upperFirst(e.Name)
+	S := C
+	if odd {
+		C, S = "", ""
+		for name, md := range ix.msgs {
+			if p := psmOf(md); p != nil && p.GetEntityPart().String() == "ENTITY_PART_KEYS" && strings.HasPrefix(name, pkg+".") && strings.HasSuffix(name, "Keys") {
+				C = strings.TrimSuffix(strings.TrimPrefix(name, pkg+"."), "Keys")
+			}
+		}
+		for name, sd := range ix.svcs {
+			so, _ := proto.GetExtension(sd.Options(), ext_j5pb.E_Service).(*ext_j5pb.ServiceOptions)
+			if so.GetStateQuery() != nil && strings.HasSuffix(name, "QueryService") {
+				S = strings.TrimSuffix(strings.TrimPrefix(name, pkg+".service."), "QueryService")
+			}
+		}
+		if C == "" {
+			fl.add("component-missing|Keys", "%s: no message annotated as the entity's keys is generated", e.Name)
+			return
+		}
+		if S == "" {
+			fl.add("query|service-missing", "%s: no service annotated as the entity's query service is generated", e.Name)
+			S = C
+		}
+		for _, stem := range []string{C, S} {
+			if !strings.EqualFold(letters(stem), letters(e.Name)) {
+				fl.add("naming|not-from-entity-name", "%s: generated components are named %q", e.Name, stem)
+			}
+		}
+	}
 	msg := func(suffix string) protoreflect.MessageDescriptor { return ix.msgs[pkg+"."+C+suffix] }
 	entityNames := map[string]bool{}
 	// --- components exist
@@ -331,9 +363,9 @@ func checkEntity(fl *failer, ix *index, pkg string, e *j5sgen.Entity, peers []st
 			onlyPrimary = append(onlyPrimary, snake(k.Name))
 		}
 	}
-	qs := ix.svcs[pkg+".service."+C+"QueryService"]
+	qs := ix.svcs[pkg+".service."+S+"QueryService"]
 	if qs == nil {
-		fl.add("query|service-missing", "%sQueryService is not generated", C)
+		fl.add("query|service-missing", "%sQueryService is not generated", S)
 	} else {
 		if so, _ := proto.GetExtension(qs.Options(), ext_j5pb.E_Service).(*ext_j5pb.ServiceOptions); so.GetStateQuery() == nil {
 			fl.add("query|annotation", "%sQueryService carries no state_query annotation", C)
@@ -341,9 +373,9 @@ func checkEntity(fl *failer, ix *index, pkg string, e *j5sgen.Entity, peers []st
 			entityNames[so.GetStateQuery().Entity] = true
 		}
 		for _, mn := range []string{"Get", "List", "Events"} {
-			m := qs.Methods().ByName(protoreflect.Name(C + mn))
+			m := qs.Methods().ByName(protoreflect.Name(S + mn))
 			if m == nil {
-				fl.add("query|method-missing|"+mn, "%sQueryService has no %s%s method", C, C, mn)
+				fl.add("query|method-missing|"+mn, "%sQueryService has no %s%s method", S, S, mn)
 				continue
 			}
 			verb, p := httpOf(m)
@@ -391,6 +423,9 @@ func checkEntity(fl *failer, ix *index, pkg string, e *j5sgen.Entity, peers []st
 		fl.add("commands|count", "%s: %d command services annotated for the entity, %d declared", e.Name, nCmd, len(e.Commands))
 	}
 	for i, c := range e.Commands {
+		if odd {
+			break // counted above; the spelling of derived service names is not pinned
+		}
 		name := C + "Command"
 		if c.Name != "" {
 			name = upperFirst(c.Name) + "Command"
@@ -414,12 +449,43 @@ func checkEntity(fl *failer, ix *index, pkg string, e *j5sgen.Entity, peers []st
 	// from the entity name. That there are no others is checked per package
 	// (checkTopicSet), by exact names: prefixes are ambiguous between entities
 	// such as Order and OrderOrder.
-	if pt := ix.svcs[pkg+".topic."+C+"PublishTopic"]; pt == nil {
+	if odd {
+		// by role instead of by name: one event-role topic carrying the event
+		// message, one upsert-role topic per summary
+		nEvent, nUpsert := 0, 0
+		for name, sd := range ix.svcs {
+			if !strings.HasPrefix(name, pkg+".topic.") {
+				continue
+			}
+			sc, _ := proto.GetExtension(sd.Options(), messaging_j5pb.E_Service).(*messaging_j5pb.ServiceConfig)
+			switch sc.GetRole().(type) {
+			case *messaging_j5pb.ServiceConfig_Event_:
+				nEvent++
+				if sd.Methods().Len() != 1 || string(sd.Methods().Get(0).Input().Name()) != C+"EventMessage" {
+					fl.add("topics|publish-message", "%s does not carry exactly the %sEventMessage", name, C)
+				}
+			case *messaging_j5pb.ServiceConfig_Upsert_:
+				nUpsert++
+			}
+			if !strings.Contains(strings.ToLower(letters(string(sd.Name()))), strings.ToLower(letters(e.Name))) {
+				fl.add("naming|not-from-entity-name", "%s: topic %s", e.Name, sd.Name())
+			}
+		}
+		if nEvent != 1 {
+			fl.add("topics|publish-missing", "%s: %d event-role topics generated, want 1", e.Name, nEvent)
+		}
+		if nUpsert != len(e.Summaries) {
+			fl.add("topics|upsert-missing", "%s: %d upsert-role topics generated, %d summaries declared", e.Name, nUpsert, len(e.Summaries))
+		}
+	} else if pt := ix.svcs[pkg+".topic."+C+"PublishTopic"]; pt == nil {
 		fl.add("topics|publish-missing", "%sPublishTopic is not generated", C)
 	} else if pt.Methods().Len() != 1 || string(pt.Methods().Get(0).Input().Name()) != C+"EventMessage" {
 		fl.add("topics|publish-message", "%sPublishTopic does not carry exactly the %sEventMessage", C, C)
 	}
 	for i, sm := range e.Summaries {
+		if odd {
+			break
+		}
 		name := C + "Summary"
 		if sm.Name != "" {
 			name = C + upperFirst(sm.Name)
@@ -495,7 +561,20 @@ func checkTopicSet(fl *failer, ix *index, p *j5sgen.Package) {
 	}
 }
 
-func check(b *j5sgen.Bundle) []vf.Failure {
+// letters keeps the letters and digits of a name.
+func letters(s string) string {
+	var sb strings.Builder
+	for _, r := range s {
+		if (r >= 'a' && r <= 'z') || (r >= 'A' && r <= 'Z') || (r >= '0' && r <= '9') {
+			sb.WriteRune(r)
+		}
+	}
+	return sb.String()
+}
+
+func check(b *j5sgen.Bundle) []vf.Failure { return checkOpts(b, false) }
+
+func checkOpts(b *j5sgen.Bundle, odd bool) []vf.Failure {
 	fl := &failer{}
 	src := &j5sx.Bundle{Files: b.Render()}
 	texts := map[string]string{}
@@ -528,11 +607,13 @@ func check(b *j5sgen.Bundle) []vf.Failure {
 		for _, f := range p.Files {
 			for _, d := range f.Decls {
 				if d.Entity != nil {
-					checkEntity(fl, ix, p.Name, d.Entity, peers, false)
+					checkEntity(fl, ix, p.Name, d.Entity, peers, odd)
 				}
 			}
 		}
-		checkTopicSet(fl, ix, p)
+		if !odd {
+			checkTopicSet(fl, ix, p)
+		}
 	}
 	// client cross-check: each entity is grouped into a StateEntity
 	var capi *client_j5pb.API
@@ -576,7 +657,7 @@ func check(b *j5sgen.Bundle) []vf.Failure {
 				var se *client_j5pb.StateEntity
 				if cp != nil {
 					for _, x := range cp.StateEntities {
-						if strings.EqualFold(strings.ReplaceAll(x.Name, "_", ""), e.Name) {
+						if strings.EqualFold(letters(x.Name), letters(e.Name)) {
 							se = x
 						}
 					}
@@ -607,6 +688,77 @@ func check(b *j5sgen.Bundle) []vf.Failure {
 		}
 	}
 	return fl.fails
+}
+
+// oddEntityNames: "any entity name casing".
+var oddEntityNames = []string{"PlanB", "FOO", "HTTPServer", "Plan2", "planItem", "plan_item", "Plan_Item", "x", "ID", "userID", "aB", "Ab", "fooBAR", "Foo2Bar", "A1", "item"}
+
+type casingCase struct {
+	Bundle *j5sgen.Bundle `json:"bundle"`
+}
+
+func laneCasing(raw json.RawMessage) ([]vf.Failure, error) {
+	var c casingCase
+	if err := json.Unmarshal(raw, &c); err != nil {
+		return nil, err
+	}
+	return checkOpts(c.Bundle, true), nil
+}
+
+// TestCasing: one entity per package, named in a casing outside the vocabulary the
+// expected names of TestEntity are exact for. Components are found by their entity
+// annotations and roles; their names must still spell the entity name.
+func TestCasing(t *testing.T) {
+	r := vf.Start(t, prop, "casing")
+	rapid.Check(t, func(t *rapid.T) {
+		o := j5sgen.DefaultOpts()
+		o.Entities, o.EntityOnly = true, true
+		o.Services, o.Topics = false, false // roles are attributed to the one entity
+		o.MaxPackages, o.MaxFiles = 1, 1
+		b, _ := j5sgen.Draw(t, o)
+		name := rapid.SampledFrom(oddEntityNames).Draw(t, "entityname")
+		if rapid.IntRange(0, 3).Draw(t, "recase") == 0 {
+			// any casing of a generated word
+			w := []rune(rapid.SampledFrom([]string{"order", "planitem", "ledgerentry"}).Draw(t, "word"))
+			for i := range w {
+				if rapid.Bool().Draw(t, "upper") {
+					w[i] = w[i] - 'a' + 'A'
+				}
+			}
+			name = string(w)
+		}
+		var ent *j5sgen.Entity
+		for _, d := range b.Packages[0].Files[0].Decls {
+			if d.Entity != nil {
+				ent = d.Entity
+			}
+		}
+		if ent == nil {
+			r.Discard()
+			return
+		}
+		ent.Name = name
+		shape := "other"
+		switch {
+		case strings.ToUpper(name) == name && len(name) > 1:
+			shape = "all-caps"
+		case strings.ToLower(name) == name:
+			shape = "all-lower"
+		case strings.Contains(name, "_"):
+			shape = "underscore"
+		case name[len(name)-1] >= 'A' && name[len(name)-1] <= 'Z':
+			shape = "ends-in-capital"
+		case name[0] >= 'a' && name[0] <= 'z':
+			shape = "lower-camel"
+		}
+		r.Eval(true, vf.Hash(b.Render()), "casing:"+shape, fmt.Sprintf("summaries:%d", len(ent.Summaries)), fmt.Sprintf("commands:%d", len(ent.Commands)))
+		if r.WantSample() {
+			r.Sample(map[string]any{"entity": name})
+		}
+		c := casingCase{Bundle: b}
+		r.Journal(c)
+		r.Judge(t, c, checkOpts(b, true))
+	})
 }
 
 func TestEntity(t *testing.T) {
